@@ -5,6 +5,9 @@ package nbhttp
 
 //@ uses mempool.unborn
 
+// the object pools of this package hold requests, responses and body readers, never allocator buffers
+//@ axiom objpools: poolCap[&responsePool] == 0 && poolCap[&requestPool] == 0 && poolCap[&bodyReaderPool] == 0 && poolCap[&clientResponsePool] == 0
+
 // bytes handed to the connection by the code under contract (advanced only by the trusted Write contracts)
 //@ ghost gOut : Int
 
@@ -14,6 +17,14 @@ package nbhttp
 //@   ensures err == nil ==> n == len(b)
 //@   ensures gOut == old(gOut) + ite(err == nil, len(b), 0)
 //@   assigns gOut, allocates
+//@ iface interface{Sendfile(f *os.File, remain int64) (int64, error)}.Sendfile
+//@   note the connection's sendfile: touches the connection and the file only
+//@   assigns gOut, allocates
+//@ package io
+//@ extern io.Copy
+//@   note copies from the reader to the connection through a transfer buffer: touches the connection, the reader and that buffer only
+//@   assigns gOut, allocates
+//@ package net
 //@ iface io.Writer.Write
 //@   ensures err == nil ==> n == len(p)
 //@   ensures gOut == old(gOut) + ite(err == nil, len(p), 0)
@@ -23,6 +34,7 @@ package nbhttp
 // ---- Response: the two pooled buffers it may hold are live and distinct (C11)
 //@ pred ResOwn(res *Response) := (res.buffer != nil ==> liveP[res.buffer]) && (res.bodyBuffer != nil ==> liveP[res.bodyBuffer]) && (res.buffer != nil && res.bodyBuffer != nil ==> res.buffer != res.bodyBuffer)
 //@ pred ResWired(res *Response) := res.Parser != nil && res.request != nil
+//@ pred HeadInv(res *Response, pdata *[]byte, top0 int) := pdata != nil && liveP[pdata] && pdata > top0 && res.trailer != nil && res.headEncoded
 //@ pred buflen(p *[]byte) := ite(p == nil, 0, len(*p))
 
 //@ ghost local Response.gLen0 : Int
@@ -42,13 +54,22 @@ package nbhttp
 //@   note parses the Content-Length header: does not touch the buffers
 //@   assigns res.contentLen, allocates
 //@ func (*Response).eoncodeHead
-//@   trusted
+//@   props C09 C11
+//@   safety index slice nil div assert panic make
 //@   note encodes the head into a new pooled buffer unless already done
-//@   requires ResOwn(res)
+//@   requires ResOwn(res) && res.request != nil
 //@   ensures !old(res.headEncoded) ==> res.buffer != nil && fresh(res.buffer) && liveP[res.buffer]
 //@   ensures old(res.headEncoded) ==> res.buffer == old(res.buffer)
 //@   ensures res.headEncoded && res.bodyBuffer == old(res.bodyBuffer) && (forall q int :: q <= old(top) ==> liveP[q] == old(liveP[q]) && box(q, "[]byte") == old(box(q, "[]byte")))
-//@   assigns res.headEncoded, res.buffer, res.trailer, res.trailerSize, liveP, allboxes("[]byte"), allelems("byte"), allocates
+//@   assigns res.headEncoded, res.buffer, res.trailer, res.trailerSize, liveP, allboxes("[]byte"), allelems("byte"), allmaps("string", "string"), allocates
+//@   loop 1
+//@     invariant rangeindex >= -1
+//@     invariant HeadInv(res, pdata, old(top)) && (forall q int :: q <= old(top) ==> liveP[q] == old(liveP[q]) && box(q, "[]byte") == old(box(q, "[]byte")))
+//@   loop 2
+//@     invariant HeadInv(res, pdata, old(top)) && (forall q int :: q <= old(top) ==> liveP[q] == old(liveP[q]) && box(q, "[]byte") == old(box(q, "[]byte")))
+//@   loop 3
+//@     invariant rangeindex >= -1
+//@     invariant HeadInv(res, pdata, old(top)) && (forall q int :: q <= old(top) ==> liveP[q] == old(liveP[q]) && box(q, "[]byte") == old(box(q, "[]byte")))
 //@ func (*Response).formatInt
 //@   props C09
 //@   safety index slice nil div assert panic make
@@ -82,7 +103,7 @@ package nbhttp
 //@   ensures n: result1 == nil ==> result0 == l                                                                       // prop C09
 //@   ensures own: ResOwn(res)                                                                                          // prop C11
 //@   ensures conserve: result1 == nil ==> gOut - old(gOut) + buflen(res.buffer) == res.gLen0 + res.gLenStr + l + 4   // prop C09
-//@   assigns res.headEncoded, res.buffer, res.trailer, res.trailerSize, res.gLen0, res.gLenStr, gOut, liveP, allboxes("[]byte"), allelems("byte"), allocates
+//@   assigns res.headEncoded, res.buffer, res.trailer, res.trailerSize, res.intFormatBuf, res.gLen0, res.gLenStr, gOut, liveP, allboxes("[]byte"), allelems("byte"), allmaps("string", "string"), allocates
 //@   at call:eoncodeHead#1 ghost { res.gLen0 = buflen(res.buffer) }
 //@   at call:formatInt#1 ghost { res.gLenStr = len(result) }
 
@@ -101,3 +122,63 @@ package nbhttp
 //@   assigns everything
 //@   at entry ghost { res.gLen0 = buflen(res.buffer) + buflen(res.bodyBuffer) }
 //@   at call:eoncodeHead#1 ghost { res.gLen0 = buflen(res.buffer) + buflen(res.bodyBuffer) }
+
+// ---- final flush: everything buffered goes to the connection, the terminating chunk when chunked; both buffers are given back (C09, C11)
+//@ func (*Response).flush
+//@   props C09 C11
+//@   safety index slice nil div assert panic make
+//@   requires ResOwn(res) && conn != nil
+//@   ensures own: ResOwn(res) && res.buffer == nil                                                                      // prop C11
+//@   ensures out: result == nil && !res.chunked ==> gOut - old(gOut) == old(buflen(res.buffer) + buflen(res.bodyBuffer)) && buflen(res.bodyBuffer) == 0      // prop C09
+//@   ensures freed: old(res.buffer) != nil ==> !liveP[old(res.buffer)]                                                  // prop C11
+//@   ensures freedb: res.bodyBuffer != old(res.bodyBuffer) ==> res.bodyBuffer == nil && !liveP[old(res.bodyBuffer)]   // prop C11
+//@   ensures last: result == nil && res.chunked && len(res.trailer) == 0 ==> gOut - old(gOut) == old(buflen(res.buffer)) + 5   // prop C09
+//@   ensures lastt: result == nil && res.chunked ==> gOut - old(gOut) >= old(buflen(res.buffer)) + 5                   // prop C09
+//@   assigns res.buffer, res.bodyBuffer, gOut, liveP, allboxes("[]byte"), allelems("byte"), allocates
+//@   loop 1
+//@     invariant pdata != nil && liveP[pdata] && len(*pdata) >= old(buflen(res.buffer)) + 3 && gOut == old(gOut) && res.buffer == nil && res.bodyBuffer == old(res.bodyBuffer) && (res.bodyBuffer != nil ==> liveP[res.bodyBuffer] && pdata != res.bodyBuffer) && (old(res.buffer) != nil ==> pdata == old(res.buffer) || !liveP[old(res.buffer)])
+
+//@ func (*Response).Flush
+//@   props C09 C11
+//@   safety index slice nil div assert panic make
+//@   requires ResOwn(res) && (res.Parser != nil ==> res.request != nil)
+//@   ensures own: ResOwn(res)                                                                                           // prop C11
+//@   assigns everything
+
+//@ func releaseResponse
+//@   props C11
+//@   safety index slice nil div assert panic make
+//@   requires res != nil ==> ResOwn(res)
+//@   ensures res != nil ==> res.buffer == nil && res.bodyBuffer == nil
+//@   ensures old(res != nil && res.buffer != nil) ==> !liveP[old(res.buffer)]
+//@   ensures old(res != nil && res.bodyBuffer != nil) ==> !liveP[old(res.bodyBuffer)]
+//@   ensures gOut == old(gOut) && gCloses == old(gCloses) && (forall q int :: q != old(res.buffer) && q != old(res.bodyBuffer) ==> liveP[q] == old(liveP[q]))
+//@   assigns everything
+
+//@ func releaseRequest
+//@   trusted
+//@   note returns the request (and, unless retained, its body reader) to their object pools; no allocator buffer of the response is involved
+//@   assigns allocates
+
+// ---- end of a handler: head and body flushed, connection closed iff the request asked for it or the flush failed, response buffers given back (C09, C10, C11)
+//@ func (*ServerProcessor).flushResponse
+//@   props C09 C10 C11
+//@   safety index slice nil div assert panic make
+//@   requires parser != nil && parser.Engine != nil && res != nil && res.request != nil && res.Parser != nil && ResOwn(res) && (!res.headEncoded ==> res.buffer == nil)
+//@   ensures released: old(parser.Conn) != nil ==> res.buffer == nil && res.bodyBuffer == nil                       // prop C11
+//@   ensures freed1: old(parser.Conn) != nil && old(res.buffer) != nil ==> !liveP[old(res.buffer)]                   // prop C11
+//@   ensures freed2: old(parser.Conn) != nil && old(res.bodyBuffer) != nil ==> !liveP[old(res.bodyBuffer)]           // prop C11
+//@   ensures closes: gCloses - old(gCloses) <= 1                                                                      // prop C10
+//@   ensures closed: old(parser.Conn) != nil && !old(res.hijacked) && old(res.request.Close) ==> gCloses == old(gCloses) + 1   // prop C10
+//@   ensures hijack: old(res.hijacked) ==> gOut == old(gOut) && gCloses == old(gCloses)                               // prop C10
+//@   assigns everything
+
+// ---- ReadFrom: head first, then the reader's bytes (sendfile when the connection offers it)
+//@ func (*Response).ReadFrom
+//@   props C09 C11
+//@   safety index slice nil div assert panic make
+//@   requires ResWired(res) && ResOwn(res) && res.Parser.Engine != nil && (!res.headEncoded ==> res.buffer == nil)
+//@   requires typednil: (istype(r, "*io.LimitedReader") ==> as(r, "*io.LimitedReader") != nil) && (istype(res.Parser.Conn, "*nbhttp.Conn") ==> as(res.Parser.Conn, "*nbhttp.Conn") != nil)
+//@   ensures sent: result1 == nil && res.Parser.Conn != nil ==> res.buffer == nil && res.bodyBuffer == nil                                // prop C09
+//@   ensures own: ResOwn(res)                                                                                           // prop C11
+//@   assigns everything
